@@ -69,6 +69,21 @@ func (o *objectGoArrayReflect) init() {
 	o.putIdx = o._putIdx
 }
 
+func (o *objectGoArrayReflect) setReflectValue(v reflect.Value) {
+	o.objectGoReflect.setReflectValue(v)
+	// the element wrappers handed out earlier are views of this array's elements: they move with it
+	for i, w := range o.valueCache {
+		if w != nil {
+			if i < v.Len() {
+				w.setReflectValue(v.Index(i))
+			} else {
+				copyReflectValueWrapper(w)
+				o.valueCache[i] = nil
+			}
+		}
+	}
+}
+
 func (o *objectGoArrayReflect) updateLen() {
 	o.lengthProp.value = intToValue(int64(o.fieldsValue.Len()))
 }
